@@ -14,7 +14,7 @@ var ErrInjected = errors.New("sim: injected fault")
 
 // Flavors of injected errors: what real destinations and sources return is not
 // always a plain error value. A fault plan names one of them.
-var Flavors = []string{"plain", "temporary", "eagain", "shortwrite", "unexpected-eof", "closed", "eof", "uncomparable"}
+var Flavors = []string{"plain", "temporary", "eagain", "shortwrite", "unexpected-eof", "closed", "eof", "uncomparable", "unwrap-nil"}
 
 // tempErr looks like a net.Error that asks to be retried.
 type tempErr struct{}
@@ -28,6 +28,12 @@ func (tempErr) Timeout() bool   { return true }
 type sliceErr []error
 
 func (e sliceErr) Error() string { return "sim: injected fault (aggregate of errors)" }
+
+// causeErr is an error with an optional cause that is absent: Unwrap returns nil.
+type causeErr struct{}
+
+func (causeErr) Error() string { return "sim: injected fault (no cause)" }
+func (causeErr) Unwrap() error { return nil }
 
 // ErrFor returns the error value of a flavor.
 func ErrFor(flavor string) error {
@@ -46,6 +52,8 @@ func ErrFor(flavor string) error {
 		return io.EOF // a destination or source may fail with exactly this value (a pipe whose other end was closed with it)
 	case "uncomparable":
 		return sliceErr{ErrInjected}
+	case "unwrap-nil":
+		return causeErr{}
 	}
 	return ErrInjected
 }
